@@ -796,3 +796,85 @@ func RMW(seed uint64) *Case {
 		}
 	}
 }
+
+// LockShadow is a C07/C10 sub-profile: a load miss of line X, optionally an
+// older access to X behind it, a conditional branch that depends on the
+// loaded value and is taken, and in its shadow a load of X (never a store:
+// that is KF-W3's business). Several units hold or want the lock of one line
+// at the moment the branch is found mispredicted.
+func LockShadow(seed uint64) *Case {
+	for try := uint64(0); ; try++ {
+		r := rng.New(rng.Derive(seed, 0x10c5, try))
+		p := &Profile{Name: "lock-shadow", PoolMin: 5, PoolMax: 8, AddrRegsMax: 1, SubWord: true, MemSizes: []int{1024, 4096}, WAlu: 1}
+		b := NewBuilder(r, p)
+		a := b.Addr[0]
+		line := (int(b.AddrVal[a]) &^ 63)
+		if line+64 > b.ReadOnlyFrom {
+			line = 0
+		}
+		at := func(sz int) int32 { return int32(line + sz*r.Intn(64/sz) - int(b.AddrVal[a])) }
+		x, y, z, w := b.Pool[0], b.Pool[1], b.Pool[2], b.Pool[3]
+		groups := r.Range(1, 2)
+		for g := 0; g < groups; g++ {
+			// the loaded word decides the branch: make it known
+			off := at(4)
+			val := int32(0)
+			if r.Bool() {
+				val = int32(r.Range(1, 100))
+			}
+			b.putWord(int(b.AddrVal[a])+int(off), val)
+			for k := r.Intn(3); k > 0; k-- {
+				b.Emit(isa.Inst{Op: isa.NOP})
+			}
+			b.Emit(isa.Inst{Op: isa.LW, Rd: x, Rs1: a, Imm: off})
+			switch r.Intn(3) {
+			case 0:
+				sop := []isa.Op{isa.SW, isa.SH, isa.SB}[r.Intn(3)]
+				so := at(sop.AccessSize())
+				for so == off { // keep the branch operand's word as it is
+					so = at(sop.AccessSize())
+					if sop != isa.SW {
+						break
+					}
+				}
+				if sop == isa.SW && so == off {
+					b.Emit(isa.Inst{Op: isa.NOP})
+				} else if int(so)/4 == int(off)/4 && sop != isa.SW {
+					b.Emit(isa.Inst{Op: isa.LB, Rd: y, Rs1: a, Imm: at(1)})
+				} else {
+					b.Emit(isa.Inst{Op: sop, Rs2: w, Rs1: a, Imm: so})
+				}
+			case 1:
+				b.Emit(isa.Inst{Op: isa.LH, Rd: y, Rs1: a, Imm: at(2)})
+			}
+			l := b.NewLabel()
+			if val == 0 {
+				b.Emit(isa.Inst{Op: isa.BEQZ, Rs1: x, Label: l})
+			} else {
+				b.Emit(isa.Inst{Op: isa.BNEZ, Rs1: x, Label: l})
+			}
+			for k := r.Range(1, 3); k > 0; k-- {
+				if r.Chance(2, 3) {
+					lop := []isa.Op{isa.LW, isa.LH, isa.LB}[r.Intn(3)]
+					b.Emit(isa.Inst{Op: lop, Rd: z, Rs1: a, Imm: at(lop.AccessSize())})
+				} else {
+					b.Emit(isa.Inst{Op: isa.ADDI, Rd: z, Rs1: z, Imm: 1})
+				}
+			}
+			b.Place(l)
+			// another line for the next group
+			line = (line + 64*r.Range(1, 5)) % (b.ReadOnlyFrom &^ 63)
+			if d := line - int(b.AddrVal[a]); d < -1900 || d > 1900 {
+				line = int(b.AddrVal[a]) &^ 63
+			}
+		}
+		if r.Bool() {
+			b.Emit(isa.Inst{Op: isa.RET})
+		}
+		b.Prog.Labels["END"] = len(b.Prog.Insts)
+		b.Tag("lock-shadow")
+		if cs := Finish(b, 2000, false); cs != nil {
+			return cs
+		}
+	}
+}
